@@ -265,7 +265,12 @@ def compute_renames(mods: dict[str, Module], inv: dict) -> dict[str, str]:
                 return out
             osig = {r: norm(old_c.get("attr_profiles", {}).get(r, []), {}) for r in rem}
             nsig = {a: norm(new_c.get("attr_profiles", {}).get(a, []), back) for a in add_}
-            add(_mutual_best(rem, add_, osig, nsig, floor=0.34))
+            mb = _mutual_best(rem, add_, osig, nsig, floor=0.34)
+            # completion: once the confident pairs are taken out, a single removed and a single added attribute left over are each other's rename
+            left_r, left_a = [r for r in rem if r not in mb.values()], [a for a in add_ if a not in mb]
+            if len(left_r) == 1 and len(left_a) == 1 and _jaccard(osig[left_r[0]], nsig[left_a[0]]) >= 0.1:
+                mb[left_a[0]] = left_r[0]
+            add(mb)
     for c in conflicts:
         ren.pop(c, None)
     # a rename back must not collide with a name that still exists next to the new one
